@@ -79,6 +79,10 @@ def exempt : List (Loc × String) := [
   (F.«gb28181.PubSession.listener», "publish"),
   (F.«gb28181.PubSession.udpConn», "publish"),
   (F.«rtmp.ServerSession.DisposeByObserverFlag», "own"),
+  -- written by Server.OnNewRtsp{Pub,Sub}Session…, which the command session calls from inside RunLoop, and read after
+  -- RunLoop returns in the same handleTcpConnect / websocket handler goroutine (same pattern as the rtmp flag above)
+  (F.«rtsp.PubSession.DisposeByObserverFlag», "own"),
+  (F.«rtsp.SubSession.DisposeByObserverFlag», "own"),
   (F.«rtmp.ServerSession.appName», "publish"),
   (F.«rtmp.ServerSession.avObserver», "own"),
   (F.«rtmp.ServerSession.peerWinAckSize», "own"),
